@@ -25,6 +25,7 @@ ASSUMPTIONS = [
     "secp256k1",
 ]
 OBLIGATIONS = {
+    "privkey_as_text": "a valid private key offered as text (hex, base64, decimal, ...) instead of 32 bytes",
     "long_history": "operations executed in one long history (every key of a 199-element group, forward / forward / reverse)",
     "interrupted_calls": "interruption points explored (an earlier call cut short by an asynchronous exception, then ordinary calls)",
     "field_boundary_operands": "field helpers on the real moduli with boundary operands (incl. products with tiny residues)",
@@ -595,6 +596,14 @@ def run_job(job):
             acc.evaluations += 1
             acc.nontrivial += 1
             acc.check("privkey", {"key": b.hex()}, chk_privkey)
+        # a valid key as other tools write it (hex text, base64, decimal ...): none of these is a 32-byte key
+        from vf.classes import text_forms
+        for kk in (int.from_bytes(filler(job["seed"], "c03-key", 32), "big") % n or 1, 1, n - 1):
+            for what, t in text_forms(kk.to_bytes(32, "big")):
+                acc.evaluations += 1
+                acc.nontrivial += 1
+                acc.ob("privkey_as_text")
+                acc.check("privkey", {"key": t.hex(), "what": what}, chk_privkey)
         for kind, v in [("abs", 0), ("abs", 1), ("abs", 2), ("top", 2), ("top", 1), ("zeros", 2), ("zeros", 3), ("zeros", 7)]:
             acc.evaluations += 1
             acc.nontrivial += 1
